@@ -129,7 +129,7 @@ def fxrealtest(workdir):
     return dt
 
 
-def validate_shards(module, shard_paths, workdir, env_extra=None, cfg=None, drift=None):
+def validate_shards(module, shard_paths, workdir, env_extra=None, cfg=None, drift=None, regen=None):
     """One single-worker TLC per shard, in parallel.  Returns (fails, stats) where fails is a list of
     dicts {shard, id, prop, verdict} exactly as TLC printed them."""
     fails, tot_events, states, trans = [], 0, 0, 0
@@ -159,7 +159,7 @@ def validate_shards(module, shard_paths, workdir, env_extra=None, cfg=None, drif
             for m in re.finditer(r'^"FAIL (.*)"$', out, re.M):
                 raw = m.group(1).encode().decode("unicode_escape")
                 ident, prop, verdict = json.loads(raw)
-                fails.append({"shard": path, "id": ident, "prop": prop, "verdict": verdict})
+                fails.append({"shard": path, "id": ident, "prop": prop, "verdict": verdict, "regen": dict(regen, module=module) if regen else None})
             per.append(dt)
     return fails, {"events": tot_events, "states": states, "transitions": trans, "tlc_wall_max_s": max(per) if per else 0}
 
@@ -238,8 +238,10 @@ def write_replays(prop, new_fails, limit=20):
     for n, f in enumerate(new_fails[:limit]):
         path = f"{d}/{prop}-{n}.json"
         json.dump({"property": prop, "verdict": f["verdict"], "tlc_event_id": f["id"], "event": f.get("event"), "session": f.get("session"),
-                   "how": f"bin/check {prop} --replay {path}   (re-judges this recorded event with TLC; the event holds the "
-                          "exact inputs, config and build, so the call can be re-issued against the library)"},
+                   "regen": f.get("regen"),
+                   "how": f"bin/check {prop} --replay {path}   re-issues the call against the CURRENT /repo (the generator is deterministic in "
+                          "(family, tier, seed, build): it is re-run and the event with the same id is judged again by TLC; TLC-generated cases are "
+                          "replayed from the stored case); add --recorded to re-judge the recorded observation instead"},
                   open(path, "w"))
         paths.append(path)
     return paths
